@@ -70,8 +70,29 @@ def build(case, wrap_step=False):
     rhs = de.DiffRHS(f)
     if case.get("jac", True) and jac is not None:
         rhs.hook_jacobian_call(jac)
-    a = de.OdeSystem(rhs, y0=y0, t=(dtype(t0), dtype(tf)), dt=dtype(case["dt0"]), rtol=dtype(case.get("rtol", case["tol"])), atol=dtype(case.get("atol", case["tol"])))
-    a.method = method_of(case["method"])
+    via = case.get("via", "ctor")
+    rt_, at_ = dtype(case.get("rtol", case["tol"])), dtype(case.get("atol", case["tol"]))
+    if via == "ctor":
+        a = de.OdeSystem(rhs, y0=y0, t=(dtype(t0), dtype(tf)), dt=dtype(case["dt0"]), rtol=rt_, atol=at_)
+        a.method = method_of(case["method"])
+    else:
+        # the tolerances reach the system through its setters: the system is built with loose ones (1e-2) and tightened afterwards - before the method is
+        # chosen, after it, or after a whole loose run and a reset.  What the run is judged against is what the system reports as its tolerances.
+        a = de.OdeSystem(rhs, y0=y0, t=(dtype(t0), dtype(tf)), dt=dtype(case["dt0"]), rtol=dtype(1e-2), atol=dtype(1e-2))
+        if via == "before":
+            a.rtol = rt_; a.atol = at_
+            a.method = method_of(case["method"])
+        elif via == "after":
+            a.method = method_of(case["method"])
+            a.atol = at_; a.rtol = rt_
+        elif via == "rerun":
+            a.method = method_of(case["method"])
+            a.integrate(callback=driver.Budget(200000))
+            a.reset()
+            a.rtol = rt_; a.atol = at_
+        else:
+            raise KeyError(via)
+        assert float(a.rtol) == float(rt_) and float(a.atol) == float(at_)
     if amp != 1.0:
         ex0 = ex
         ex = lambda t: ex0(t) * LD(amp)
@@ -196,7 +217,7 @@ def accuracy_case(case):
                 continue
             break
         r.add("rejections_observed", sum(1 for k in range(len(calls)) if (calls[k] - (calls[k - 1] if k else 0)) > 1))
-    r.out((name, case["problem"], int(np.sign(tf - t0)), case["tol"], min(int(np.log10(max(ratio, 1e-3))), 4)))
+    r.out((name, case["problem"], int(np.sign(tf - t0)), case["tol"], min(int(np.log10(max(ratio, 1e-3))), 4), case.get("via", "ctor")))
     r.ret = ratio
     if hash(str(case)) % 97 == 0:
         r.samples.append(dict(case=case, err=err, ratio_to_tol_kappa=ratio, steps=len(T) - 1))
@@ -344,6 +365,14 @@ def run(ctx):
                     if ctx.quick and (t0, tf) == (-10.0, 10.0):
                         continue
                     cases.append(dict(section="acc", method=m, problem="rotation", span=[t0, tf], tol=tol, dt0=dt0, hops=hops))
+    # the tolerances set through the system's setters (before the method, after it, after a loose run and a reset) instead of the constructor
+    for m in PAIRS + RICH:
+        for (t0, tf) in ((0.0, 2.0), (2.0, 0.0)):
+            for via in ("before", "after", "rerun"):
+                tol = 1e-5 if m in ("HeunEulerSolver", "RICH:EulerSolver:3", "RICH:SymplecticEulerSolver:3", "RICH:ImplicitMidpoint:3") else 1e-7
+                if ctx.quick and m in ("RadauIIA19",):
+                    continue
+                cases.append(dict(section="acc", method=m, problem="rotation", span=[t0, tf], tol=tol, dt0=1e-2, via=via))
     # unequal tolerances on solutions far from unit size (the controller must weigh atol and rtol as documented: atol + rtol*|y|)
     for m in PAIRS + RICH[:3]:
         for prob in ("rotation", "damped"):
